@@ -718,13 +718,29 @@ func (c *Case) RunSupervised(ctx context.Context, e *Env, watchdog time.Duration
 		select {
 		case r := <-done:
 			out.Returned, out.Err = r.d, r.err
-			// goroutines of the call must be gone shortly after it returned
-			for i := 0; i < 200; i++ {
+			// goroutines of the call must be gone after it returned. A goroutine that is still
+			// running or runnable is not a leak however long the machine takes to schedule it:
+			// a leak is declared only for goroutines that are parked (nothing will wake them) in
+			// two samples taken apart, after the others have had time to finish.
+			for i := 0; i < 6000; i++ {
 				out.Leaked = OrasGoroutines()
 				if len(out.Leaked) == 0 {
 					break
 				}
+				if i >= 200 && AllParked(out.Leaked) {
+					time.Sleep(300 * time.Millisecond)
+					again := OrasGoroutines()
+					if len(again) > 0 && AllParked(again) {
+						out.Leaked = again
+						break
+					}
+					continue
+				}
 				time.Sleep(5 * time.Millisecond)
+			}
+			if len(out.Leaked) > 0 && !AllParked(out.Leaked) {
+				out.Leaked = nil // still busy after the generous wait: no verdict
+				out.Stuck = true
 			}
 			return out
 		case <-tick.C:
